@@ -43,7 +43,8 @@ P_BN_CONS = "SumWithinTotal_BottleneckConserved"
 P_BN_NONCONS = "SumWithinTotal_BottleneckNonConserved"
 
 ALL_NP = [1, 2, NONE]
-ALL_CUT = [(1, 2), (1, 1)]
+ALL_CUT = [(1, 2, 0), (1, 1, 0), (1, 2, 1), (2, 3, 1)]     # (cnum, cden, st): st = 1 is 'just above cnum/cden'
+FULL = (1, 1, 0)
 BOTH = ["subtract", "bottleneck"]
 
 
@@ -109,9 +110,9 @@ PLAN = {
         widest=[("n4", 3, 4), ("n4full", 1, 2), ("n4src2", 2, 2), ("n4snk2", 2, 2)],
         # (family, kind, MaxW, schemes, numpaths, cutoffs, workers)
         paths=[("n4", "digraph", 2, BOTH, ALL_NP, ALL_CUT, 3),
-               ("n4src2", "digraph", 2, BOTH, [NONE], [(1, 1)], 2),
+               ("n4src2", "digraph", 2, BOTH, [NONE], [FULL], 2),
                ("n4snk2", "digraph", 1, BOTH, ALL_NP, ALL_CUT, 2),
-               ("n5dagq", "dagflow", 2, BOTH, [NONE], [(1, 1)], 2)],
+               ("n5dagq", "dagflow", 2, BOTH, [NONE], [FULL], 2)],
         # design-level counterexamples TLC is expected to reproduce: (family, kind, MaxW, invariant, key)
         expect=[("n4cex", "digraph", 3, P_BN_NONCONS, KNOWN_KEY),
                 ("n6gadget", "dagflow", 1, P_BN_CONS, "paths/bottleneck/conserved/sum>total")],
@@ -128,7 +129,7 @@ PLAN = {
                ("n4src2", "digraph", 2, BOTH, ALL_NP, ALL_CUT, 3),
                ("n4snk2", "digraph", 2, BOTH, ALL_NP, ALL_CUT, 3),
                ("n5", "digraph", 1, BOTH, [NONE], ALL_CUT, 5),
-               ("n5dag", "dagflow", 2, BOTH, [NONE], [(1, 1)], 6)],
+               ("n5dag", "dagflow", 2, BOTH, [NONE], [FULL], 6)],
         expect=[("n4cex", "digraph", 3, P_BN_NONCONS, KNOWN_KEY),
                 ("n6gadget", "dagflow", 2, P_BN_CONS, "paths/bottleneck/conserved/sum>total")],
         full_maxw={"n5dag": 1}, full_every={"n5dag": 16, "n4back": 4},
@@ -204,13 +205,13 @@ def _make(Wint, scale, form):
 
 def _one_run(Wint, scale, srcs, snks, cfgrun, form):
     from enspara.tpt import paths
-    scheme, numpaths, cnum, cden = cfgrun
+    scheme, numpaths, cnum, cden, cst = cfgrun
     A = _make(Wint, scale, form)
     # flux_cutoff is passed as c - 1e-10, like the default 1 - 1e-10, so that exact-boundary
     # cases are decided identically in floating point and in the exact arithmetic of the spec
     kw = dict(remove_path=scheme, num_paths=(np.inf if numpaths == NONE else numpaths),
-              flux_cutoff=cnum / cden - 1e-10)
-    rec = dict(scheme=scheme, numpaths=numpaths, cnum=cnum, cden=cden, form=form)
+              flux_cutoff=cnum / cden + (2e-6 if cst else -1e-10))
+    rec = dict(scheme=scheme, numpaths=numpaths, cnum=cnum, cden=cden, cst=cst, form=form)
     try:
         with warnings.catch_warnings():
             warnings.simplefilter("ignore")
@@ -233,7 +234,7 @@ def record_case(job):
     for cfgrun in job["runs"]:
         main = _one_run(Wint, scale, srcs, snks, cfgrun, "f64")
         runs.append(main)
-        if cfgrun[1] == NONE and cfgrun[2] == cfgrun[3]:
+        if cfgrun[1] == NONE and cfgrun[2] == cfgrun[3] and not cfgrun[4]:
             # other containers / dtypes: an identical record is the same trace; a different
             # one is validated on its own
             for form in job.get("forms", ()):
@@ -344,7 +345,7 @@ def paths_job(d, fam, kind, maxw, schemes, nps, cuts, workers, invariants, tag="
                next_="Step" if sim else "Next")
     lab = "Paths %s %s/%s W<=%d schemes=%s num_paths=%s cutoffs=%s" % (
         tag or "exhaustive", fam, kind, maxw, "+".join(schemes),
-        ["inf" if v == NONE else v for v in nps], ["%d/%d" % c_ for c_ in cuts])
+        ["inf" if v == NONE else v for v in nps], ["%d/%d%s" % (c_[0], c_[1], "+" if c_[2] else "") for c_ in cuts])
     j = dict(module=m, cfg=c, cwd=d, label=lab, workers=workers, timeout=3000, java_opts=("-Xmx2g",),
              deadlock=not sim)
     j.update(kw)
@@ -419,7 +420,7 @@ def validate(ctx, d, cases, pool_submit, tag):
             continue
         path = os.path.join(tdir, "%s_%d.json" % (tag, ci))
         slim = [dict(W=c["W"], srcs=c["srcs"], snks=c["snks"],
-                     runs=[{k: r[k] for k in ("scheme", "numpaths", "cnum", "cden", "paths", "fluxes", "after")}
+                     runs=[{k: r[k] for k in ("scheme", "numpaths", "cnum", "cden", "cst", "paths", "fluxes", "after")}
                            for r in c["runs"]]) for c in part]
         with open(path, "w") as fh:
             json.dump(slim, fh)
@@ -436,7 +437,7 @@ def run(ctx):
     ctx.assumptions += [
         "non-negative weights on an integer (or k/8, k/10) lattice, so float arithmetic in the code is exact",
         "sources and sinks non-empty, disjoint, without duplicates",
-        "flux_cutoff c is passed to the code as c - 1e-10 (as its default 1 - 1e-10)",
+        "flux_cutoff c is passed to the code as c - 1e-10 (as its default 1 - 1e-10); the 'just above c' cutoffs as c + 2e-6 (far above float32 rounding, far below the gap between distinct attainable fractions)",
         "dense numpy inputs only: top_path/paths raise on scipy.sparse inputs (docstring says np.ndarray)",
         "exhaustive within the listed families only; for n > 5 the optimum in Trace_Paths is the "
         "thresholded-reachability definition, shown equal to the brute force by TLC on the families"]
@@ -470,7 +471,7 @@ def run(ctx):
             submit(paths_job(d, fam, kind, w, sch, nps, cuts, wk, invs, coverage=True))
         expect_f = []
         for fam, kind, w, inv, key in plan["expect"]:
-            j = paths_job(d, fam, kind, w, ["bottleneck"], [NONE], [(1, 1)], 2, [inv], tag="cex")
+            j = paths_job(d, fam, kind, w, ["bottleneck"], [NONE], [FULL], 2, [inv], tag="cex")
             expect_f.append((inv, key, j, submit(j, expect_ok=False)))
         for fam, kind, w, num in plan["simulate"]:
             # on 6 nodes bottleneck removal over-explains conserved flows too (see `expect`)
@@ -480,7 +481,7 @@ def run(ctx):
 
         # ---- pattern A: every emitted graph into the real top_path
         jobs = []
-        allruns = [(s, n_, cu[0], cu[1]) for s in BOTH for n_ in ALL_NP for cu in ALL_CUT]
+        allruns = [(s, n_, cu[0], cu[1], cu[2]) for s in BOTH for n_ in ALL_NP for cu in ALL_CUT]
         for fx in FIXED:
             jobs.append(dict(W=fx["W"], scale=fx["scale"], srcs=fx["srcs"], snks=fx["snks"],
                              family="fixed-" + fx["name"], runs=allruns, forms=("f64-F", "f32", "view")))
@@ -510,8 +511,8 @@ def run(ctx):
             fmax = plan["full_maxw"].get(fam, 0)
             for k, c in enumerate(cases):
                 full = (k % every == 0) or max(max(row) for row in c["W"]) <= fmax
-                runs = [(s, n_, cu[0], cu[1]) for s in BOTH for n_ in (ALL_NP if full else [NONE])
-                        for cu in (ALL_CUT if full else [(1, 1)])]
+                runs = [(s, n_, cu[0], cu[1], cu[2]) for s in BOTH for n_ in (ALL_NP if full else [NONE])
+                        for cu in (ALL_CUT if full else [FULL])]
                 jobs.append(dict(W=c["W"], scale=1, srcs=c["srcs"], snks=c["snks"], family=fam, runs=runs,
                                  forms=("f64-F", "i64", "f32", "view") if k % 16 == 0 else ()))
         for rc in random_cases(ctx.seed, plan["random"]):
@@ -532,7 +533,7 @@ def run(ctx):
                 for ri, run_ in enumerate(c["runs"]):
                     ctx.traces += 1
                     ident = (c["family"], str(c["W"]), str(c["srcs"]), str(c["snks"]), run_["scheme"],
-                             run_["numpaths"], run_["cnum"], run_["cden"], run_["form"])
+                             run_["numpaths"], run_["cnum"], run_["cden"], run_.get("cst", 0), run_["form"])
                     if "raised" in run_:
                         ctx.case(None)
                         ctx.violation({"kind": "paths-raised", "case": {k: c[k] for k in ("W", "srcs", "snks", "scale", "family")},
@@ -554,7 +555,7 @@ def run(ctx):
                                        "case": {k: c[k] for k in ("W", "srcs", "snks", "scale", "family")},
                                        "run": run_,
                                        "how": "tpt.paths(srcs, snks, W/scale, remove_path=scheme, num_paths, "
-                                              "flux_cutoff=cnum/cden-1e-10) validated by Trace_Paths.tla"},
+                                              "flux_cutoff=cnum/cden-1e-10, or +2e-6 for the just-above cutoffs) validated by Trace_Paths.tla"},
                                       key=key)
         ctx.notes["rejected_runs_by_key"] = n_bad
         ctx.notes["recorded_cases"] = len(recorded)
@@ -611,7 +612,7 @@ def replay(ctx, path):
     if rec.get("kind") in ("trace-rejected", "paths-raised"):
         c, run_ = rec["case"], rec["run"]
         job = dict(W=c["W"], scale=c["scale"], srcs=c["srcs"], snks=c["snks"], family=c["family"],
-                   runs=[(run_["scheme"], run_["numpaths"], run_["cnum"], run_["cden"])],
+                   runs=[(run_["scheme"], run_["numpaths"], run_["cnum"], run_["cden"], run_.get("cst", 0))],
                    forms=() if run_["form"] == "f64" else (run_["form"],))
         got = record_case(job)
         if run_["form"] != "f64":
